@@ -48,6 +48,19 @@ impl Log {
         g.w.write_all(b"\n").unwrap();
         g.lines += 1;
     }
+    /// A whole scenario (reset + its events) written atomically: for drivers whose scenarios run concurrently.
+    pub fn block(&self, descr: Value, events: Vec<Value>) -> u64 {
+        let mut g = self.inner.lock().unwrap();
+        g.scn += 1;
+        let scn = g.scn;
+        let line = json!({"ev": "reset", "scn": scn}).to_string();
+        g.w.write_all(line.as_bytes()).unwrap();
+        g.w.write_all(b"\n").unwrap();
+        for e in events { let l = e.to_string(); g.w.write_all(l.as_bytes()).unwrap(); g.w.write_all(b"\n").unwrap(); g.lines += 1; }
+        g.lines += 1;
+        g.descr.push((scn, descr));
+        scn
+    }
     pub fn finish(&self, descr_path: &str) {
         let mut g = self.inner.lock().unwrap();
         g.w.flush().unwrap();
